@@ -2,6 +2,7 @@
 import ast
 import os
 
+from . import pyast
 from .pyast import Reject, Tr, find_function, strip_doc
 
 SELF_FIELDS = {
@@ -60,6 +61,30 @@ class CmTr(Tr):
             self.env["matrix"] = ("matrix", "CM")
             self.cells = {}
             return ""
+        # the same matrix assembled with np.stack: row = np.stack([a, b], axis=-1); matrix = np.stack([row0, row1], axis=-2)
+        # (optionally followed by .astype(int, copy=False): the counts are integers already)
+        if isinstance(s, ast.Assign) and len(s.targets) == 1 and isinstance(s.targets[0], ast.Name) and isinstance(s.value, ast.Call):
+            v = s.value
+            if (isinstance(v.func, ast.Attribute) and v.func.attr == "astype" and ast.unparse(v.func.value).startswith("np.stack(")
+                    and [ast.unparse(a) for a in v.args] == ["int"] and [(k.arg, ast.unparse(k.value)) for k in v.keywords] in ([], [("copy", "False")])):
+                v = v.func.value
+            if ast.unparse(v.func) == "np.stack" and len(v.args) == 1 and isinstance(v.args[0], ast.List) and len(v.args[0].elts) == 2:
+                axis = [ast.unparse(k.value) for k in v.keywords if k.arg == "axis"]
+                if len(v.keywords) != 1 or len(axis) != 1:
+                    raise Reject("np.stack call shape: " + ast.unparse(v))
+                a, b = v.args[0].elts
+                if axis[0] == "-1":
+                    self.rows = getattr(self, "rows", {})
+                    self.rows[s.targets[0].id] = (self.coerce(self.expr(a), "Z"), self.coerce(self.expr(b), "Z"))
+                    return ""
+                if axis[0] == "-2" and s.targets[0].id == "matrix":
+                    rows = getattr(self, "rows", {})
+                    if not (isinstance(a, ast.Name) and isinstance(b, ast.Name) and a.id in rows and b.id in rows):
+                        raise Reject("np.stack of rows: " + ast.unparse(v))
+                    self.cells = {(0, 0): rows[a.id][0], (0, 1): rows[a.id][1], (1, 0): rows[b.id][0], (1, 1): rows[b.id][1]}
+                    self.env["matrix"] = ("matrix", "CM")
+                    return ""
+                raise Reject("np.stack axis: " + ast.unparse(v))
         # matrix[..., i, j] = v
         if isinstance(s, ast.Assign) and isinstance(s.targets[0], ast.Subscript):
             t = s.targets[0]
@@ -80,6 +105,7 @@ HEADER = "(* generated from {src} by harness/translate — do not edit *)\nFrom 
 def translate_cm(repo):
     path = os.path.join(repo, "score_analysis", "scores.py")
     tree = ast.parse(open(path).read())
+    pyast.set_helpers(tree, "Scores")
     fn = find_function(tree, "cm", cls="Scores")
     args = [a.arg for a in fn.args.args]
     if args != ["self", "threshold"]:
@@ -111,6 +137,16 @@ def c_minimum(tr, e):
     if a[1] == "Z" and b[1] == "Z":
         return (f"(Z.min {a[0]} {b[0]})", "Z")
     return (f"(Qminimum {tr.coerce(a, 'Q')} {tr.coerce(b, 'Q')})", "Q")
+
+
+def c_clip(tr, e):
+    """np.clip(a, lo, hi) = np.minimum(np.maximum(a, lo), hi) (NumPy's definition), integer arguments only"""
+    if len(e.args) != 3 or e.keywords:
+        raise Reject("np.clip call shape")
+    a, lo, hi = (tr.expr(x) for x in e.args)
+    if not (a[1] == "Z" and lo[1] == "Z" and hi[1] == "Z"):
+        raise Reject("np.clip on non-integer arguments")
+    return (f"(Z.min (Z.max {a[0]} {lo[0]}) {hi[0]})", "Z")
 
 
 def c_floor(tr, e):
@@ -172,7 +208,7 @@ def c_invert(tr, e):
     return (f"(gen_inv_incr {' '.join(args)})", "Q")
 
 
-THR_CALLS = {"np.asarray": c_asarray, "len": c_len, "np.maximum": c_maximum, "np.minimum": c_minimum,
+THR_CALLS = {"np.asarray": c_asarray, "len": c_len, "np.maximum": c_maximum, "np.minimum": c_minimum, "np.clip": c_clip,
              "np.floor": c_floor, "np.ceil": c_ceil, ".astype": c_astype, "np.nextafter": c_nextafter,
              "np.sort": c_sort, "np.concatenate": c_concatenate, "self._threshold_at_ratio": c_threshold_at_ratio,
              "self._invert_increasing_function": c_invert, "left_idx.astype": c_astype, "right_idx.astype": c_astype,
@@ -232,6 +268,7 @@ def _ret(tr, v):
 def translate_thresholds(repo):
     path = os.path.join(repo, "score_analysis", "scores.py")
     tree = ast.parse(open(path).read())
+    pyast.set_helpers(tree, "Scores")
     out = [HEADER.format(src="Scores threshold setting").replace("Model.Scores", "Model.Threshold")]
     props = {}
     for name in PROPS:
@@ -307,6 +344,7 @@ if __name__ == "__main__" and len(__import__('sys').argv) > 2:
 def translate_swap(repo):
     path = os.path.join(repo, "score_analysis", "scores.py")
     tree = ast.parse(open(path).read())
+    pyast.set_helpers(tree, "Scores")
     fn = find_function(tree, "swap", cls="Scores")
     body = strip_doc(fn.body)
     if len(body) != 1 or not isinstance(body[0], ast.Return) or not isinstance(body[0].value, ast.Call):
@@ -357,6 +395,13 @@ def c_flatten(tr, e):
     return tr.expr(e.func.value)
 
 
+def c_flip(tr, e):
+    """np.flip(a) of a 1-d array = a[::-1]"""
+    if len(e.args) != 1 or e.keywords:
+        raise Reject("np.flip call shape")
+    return (f"(rev {tr.coerce(tr.expr(e.args[0]), 'LQ')})", "LQ")
+
+
 def c_abs(tr, e):
     return (f"(Qabs {tr.coerce(tr.expr(e.args[0]), 'Q')})", "Q")
 
@@ -405,12 +450,15 @@ class AucTr(ThrTr):
 def translate_auc(repo):
     path = os.path.join(repo, "score_analysis", "scores.py")
     tree = ast.parse(open(path).read())
+    pyast.set_helpers(tree, "Scores")
     fn = find_function(tree, "auc", cls="Scores")
     if [a.arg for a in fn.args.args] != ["self", "lower", "upper"] or [ast.unparse(d) for d in fn.args.defaults] != ["0.0", "1.0"]:
         raise Reject("auc positional signature/defaults")
     if [a.arg for a in fn.args.kwonlyargs] != ["x_axis", "y_axis"] or [ast.unparse(d) for d in fn.args.kw_defaults] != ["'fpr'", "'tpr'"]:
         raise Reject("auc keyword signature/defaults")
     calls = dict(THR_CALLS)
+    # np.hstack of 1-d pieces = np.concatenate, np.flip of a 1-d array = [::-1]: exact library equivalences
+    calls.update({"np.hstack": c_concat_n, "np.flip": c_flip})
     calls.update({"np.sort": c_sort, "np.concatenate": c_concat_n, "np.searchsorted": c_searchsorted_q, "points.flatten": c_flatten,
                   "np.abs": c_abs, "trapezoid": c_trapezoid, "len": c_len})
     tr = AucTr(env={"lower": ("lower", "Q"), "upper": ("upper", "Q"), "x_axis": ("x_axis", "AX"), "y_axis": ("y_axis", "AX")},
@@ -529,6 +577,7 @@ def _ret_pair(tr, v):
 def translate_eer(repo):
     path = os.path.join(repo, "score_analysis", "scores.py")
     tree = ast.parse(open(path).read())
+    pyast.set_helpers(tree, "Scores")
     fr = find_function(tree, "_find_root", cls="Scores")
     if [a.arg for a in fr.args.args] != ["f", "xa", "xe", "find_first", "xtol"] or [ast.unparse(d) for d in fr.args.defaults] != ["1e-10"]:
         raise Reject("_find_root signature")
@@ -577,6 +626,7 @@ def translate_pointwise(repo):
     The flatten / broadcast / reshape bookkeeping around it is pinned textually (shape theorems: C10)."""
     path = os.path.join(repo, "score_analysis", "scores.py")
     tree = ast.parse(open(path).read())
+    pyast.set_helpers(tree, "Scores")
     fn = find_function(tree, "pointwise_cm")
     body = strip_doc(fn.body)
     src = [ast.unparse(s) for s in body]
